@@ -805,7 +805,13 @@ def _binary(op, a, b):
                 raise Undecided('boolean add/multiply')
             raise TypeError('numpy boolean subtract is not supported')
     if rdt != F64 and rdt.kind == 'f':
-        raise Undecided('arithmetic in %s' % rdt)
+        # half / single precision: only operations that are exact in EVERY binary floating-point format are modelled --
+        # the remainder by a concrete power of two (the fractional part needs no extra bits, no rounding, no overflow)
+        pow2_div = kb == 'py' and isinstance(vb, (int, float)) and not isinstance(vb, bool) and vb > 0 and float(vb) == vb \
+            and Fraction(vb).numerator in (1,) or (kb == 'py' and isinstance(vb, int) and not isinstance(vb, bool) and vb > 0 and (vb & (vb - 1)) == 0)
+        if not (op == 'remainder' and pow2_div):
+            raise Undecided('arithmetic in %s' % rdt)
+        core.CTX.assumed_used.add('numpy: x %% 2^k is exact in float16 / float32 (fractional part of a binary float)')
 
     def conv(x, sdt):
         if sdt is None:
